@@ -104,7 +104,7 @@ func RunFaultCase(rt *rapid.T, env *Env, prop *SimProp, faults func(w *World) []
 			break
 		}
 	}
-	base := append([]Op(nil), w.Script...)
+	base := append([]Op(nil), w.SymScript...)
 	fs := faults(w)
 	judge := func(w *World, script []Op) {
 		res := FinishCase(prop, w, env.Known)
@@ -146,7 +146,7 @@ func RunFaultCase(rt *rapid.T, env *Env, prop *SimProp, faults func(w *World) []
 			for _, op := range script {
 				vw.Exec(op)
 			}
-			judge(vw, vw.Script)
+			judge(vw, vw.SymScript)
 		}
 	}
 }
